@@ -23,6 +23,29 @@ spec fn queue_ok<V>(n: NfaBuilder<u8, V>, q: Seq<u32>) -> bool {
 
 
 
+// every fail link is dead or leads to a state whose path is a suffix of this state's path (all kinds)
+spec fn fail_suffix<V>(n: NfaBuilder<u8, V>) -> bool {
+    forall|s: int| 2 <= s < n.states@.len() ==> ({ let f = (#[trigger] n.states@[s]).fail as int; f == 1 || (0 <= f < n.states@.len() && is_suffix(path(n, f), path(n, s))) })
+}
+// the record r carries the value and the byte length registered for pattern q
+spec fn rec_of<V>(n: NfaBuilder<u8, V>, q: Seq<u8>, r: Output<V>) -> bool {
+    is_registered(n, q) && r.value == reg_out(n, q).unwrap().0 && r.length == reg_out(n, q).unwrap().1@
+}
+// the record a state's output position points to belongs to a registered pattern that is a suffix of the state's path (all kinds:
+// this is what makes every match of the leftmost iterators, which report that record only, a true occurrence with its value)
+spec fn opos_rec_ok<V>(n: NfaBuilder<u8, V>, outs: Seq<Output<V>>, s: int, o: nat) -> bool {
+    o != 0 ==> o <= outs.len() && exists|q: Seq<u8>| is_suffix(q, path(n, s)) && #[trigger] rec_of(n, q, outs[o - 1])
+}
+spec fn opos_sound<V>(n: NfaBuilder<u8, V>) -> bool {
+    forall|s: int| 0 <= s < n.states@.len() && s != 1 ==> opos_rec_ok(n, n.outputs@, s, opt_n((#[trigger] n.states@[s]).output_pos))
+}
+// the two soundness facts as one opaque atom (the wrappers only pass it on)
+#[verifier::opaque]
+spec fn sound_facts<V>(n: NfaBuilder<u8, V>) -> bool { fail_suffix(n) && opos_sound(n) }
+proof fn lemma_sound_facts_intro<V>(n: NfaBuilder<u8, V>)
+    requires fail_suffix(n), opos_sound(n),
+    ensures sound_facts(n),
+{ reveal(sound_facts); }
 // the trie built by `add` is the tree the double-array stage expects
 proof fn lemma_trie_gives_tree<V>(n: NfaBuilder<u8, V>)
     requires trie_ok(n), reach_ok(n), n.states@.len() <= u32::MAX as nat + 1,
